@@ -35,7 +35,7 @@ RULE = ("case = one generated netlist (any hierarchy, cross-library references, 
 ASSUMPTIONS = ["clone roots are elements of well-formed netlists (every child has a reference)",
                "documented side effects: Definition.clone / Instance.clone / Library.clone add the cloned instances to the "
                "reference sets of definitions that were not cloned; Netlist.clone changes nothing in the source"]
-REQUIRED = {"netlist_clones": 50, "netlists_with_straggler_instances": 20, "elements_with_nested_data": 500, "clone_roots": 1500, "independence_edit_steps": 1000, "queries_compared": 1000}
+REQUIRED = {"netlist_clones": 50, "same_edit_comparisons": 30, "netlists_with_straggler_instances": 20, "elements_with_nested_data": 500, "clone_roots": 1500, "independence_edit_steps": 1000, "queries_compared": 1000}
 
 
 def probe_clone_namespace():
@@ -470,6 +470,43 @@ def leave_stragglers(ctx, n, rng):
     return [old, free]
 
 
+def shrink(n, keep):
+    """The same deterministic edit for source and clone: every bundle is cut down to `keep` items (stored flags such as the
+    scalar/array flag of a bundle become observable only then)."""
+    k = 0
+    for l in n.libraries:
+        for d in l.definitions:
+            for p in d.ports:
+                for pin in list(p.pins)[keep:]:
+                    p.remove_pin(pin)
+                    k += 1
+            for c in d.cables:
+                for w in list(c.wires)[keep:]:
+                    w.disconnect_pins_from(list(w.pins))
+                    c.remove_wire(w)
+                    k += 1
+    return k
+
+
+def check_same_edits(ctx, n):
+    """(g) source and clone answer alike after the SAME later edits."""
+    try:
+        c = n.clone()
+    except Exception:  # noqa: BLE001 - reported by check_netlist_clone
+        return None
+    for keep in (2, 1):
+        try:
+            ka, kb = shrink(n, keep), shrink(c, keep)
+        except Exception as ex:  # noqa: BLE001
+            return "same-edit-raised:%s" % type(ex).__name__, "%r at %s" % (ex, probes.innermost_frame(ex))
+        ctx.count("same_edit_steps", ka + kb)
+        dd = canon.first_diff(canon.canon_netlist(n), canon.canon_netlist(c))
+        if dd or ka != kb:
+            return "clone-differs-after-same-edits", "every bundle cut down to %d items on both sides: %s" % (keep, dd)
+    ctx.count("same_edit_comparisons")
+    return None
+
+
 def run_case(ctx, i, rng):
     n = gen_ir.generate(rng, profile="any" if i % 2 else "edif", share=0.5, ndefs=rng.randint(3, 8),
                         top_child_ok=(i % 3 == 0), name_netlist=(i % 7 != 0))
@@ -508,6 +545,10 @@ def run_case(ctx, i, rng):
         if r:
             ctx.violation(r[0], "%s | %s" % (r[1], st))
             return
+    r = check_same_edits(ctx, n)
+    if r:
+        ctx.violation(r[0], "%s | %s" % (r[1], st))
+        return
     ctx.fingerprint((st, len(roots)), (cross or st["shared"] > 0) and len(roots) >= 15)
     if i < 3:
         ctx.sample({"shape": st, "roots": collections.Counter(k for k, _ in roots)})
